@@ -8,6 +8,9 @@ from .wrap_util import wraps
 
 
 def trace(start_node, fun, x):
+    if getattr(getattr(x, "dtype", None), "kind", "f") in "biu":
+        # the derivative with respect to an integer or boolean array would be truncated to that type
+        raise TypeError(f"Can't differentiate w.r.t. an array of dtype {x.dtype}")
     with trace_stack.new_trace() as t:
         start_box = new_box(x, t, start_node)
         end_box = fun(start_box)
